@@ -141,26 +141,26 @@ Fixpoint tier_loop (d : dcfg) (n : nat) (c total : Z) : Z * Z :=
 
 Definition b2z (b : bool) : Z := if b then 1 else 0.
 
-(* result: new state, (max_credits_reached posted, credits_added posted) *)
-Definition add_core (d : dcfg) (s : st) (n : Z) (tiering : bool) : Z * Z * Z :=   (* prev, counter, total *)
-  let prev := units s in
+(* counter and uncapped total after the tier loop *)
+Definition add_ct (d : dcfg) (s : st) (n : Z) (tiering : bool) : Z * Z :=
   let c0 := tc s mod d_W d in
-  let '(c1, total) := if tiering then tier_loop d (Z.to_nat n) c0 (n + prev) else (c0, n + prev) in
-  (prev, c1, total).
+  if tiering then tier_loop d (Z.to_nat n) c0 (n + units s) else (c0, n + units s).
 
-Definition add_units (d : dcfg) (s : st) (n : Z) (tiering : bool) : st * (Z * Z) :=
-  let '(prev, c1, total) := add_core d s n tiering in
-  let over := negb (d_maxu d =? 0) && (d_maxu d <? total) in
-  let total' := if over then d_maxu d else total in              (* fixed code: clamp once *)
-  let doit := (d_maxu d <=? 0) || (prev <? d_maxu d) in
-  (set_credit s (if doit then total' else prev) c1, (b2z over, b2z doit)).
+Definition add_over (d : dcfg) (s : st) (n : Z) (tiering : bool) : bool :=      (* max_credits_reached posted *)
+  negb (d_maxu d =? 0) && (d_maxu d <? snd (add_ct d s n tiering)).
+Definition add_doit (d : dcfg) (s : st) : bool :=                               (* credits_added posted *)
+  (d_maxu d <=? 0) || (units s <? d_maxu d).
+
+Definition add_units (d : dcfg) (s : st) (n : Z) (tiering : bool) : st :=
+  let total := snd (add_ct d s n tiering) in
+  let total' := if add_over d s n tiering then d_maxu d else total in      (* fixed code: clamp once *)
+  set_credit s (if add_doit d s then total' else units s) (fst (add_ct d s n tiering)).
 
 (* the unpatched code: first "if" stores the maximum, the independent second "if" overwrites it *)
-Definition add_units_orig (d : dcfg) (s : st) (n : Z) (tiering : bool) : st * (Z * Z) :=
-  let '(prev, c1, total) := add_core d s n tiering in
-  let over := negb (d_maxu d =? 0) && (d_maxu d <? total) in
-  let doit := (d_maxu d <=? 0) || (prev <? d_maxu d) in
-  (set_credit s (if doit then total else if over then d_maxu d else prev) c1, (b2z over, b2z doit)).
+Definition add_units_orig (d : dcfg) (s : st) (n : Z) (tiering : bool) : st :=
+  let total := snd (add_ct d s n tiering) in
+  set_credit s (if add_doit d s then total else if add_over d s n tiering then d_maxu d else units s)
+             (fst (add_ct d s n tiering)).
 
 (* ---- timers --------------------------------------------------------------------------------- *)
 Definition reset_timeouts (d : dcfg) (s : st) : st :=
@@ -188,74 +188,97 @@ Definition no_evs := mkEvs 0 0 0 0.
 
 Definition affordable (d : dcfg) (s : st) : bool := d_upg d <=? units s.
 
+Definition with_audit (s : st) (dc de dp ds dv : Z) : st :=
+  set_audit s (a_coins s + dc) (a_earn s + de) (a_paid s + dp) (a_svc s + ds) (a_evaw s + dv).
+
+Definition join_game (s : st) : st :=
+  set_game s true (npl s + 1) (if npl s =? 0 then 1 else cpl s) (if npl s =? 0 then 1 else cball s).
+
 (* game.request_player_add passed its own checks; credits: _player_add_request, then _player_added *)
-Definition add_player (d : dcfg) (s : st) : st * evs :=
-  if fp s then (set_game s true (npl s + 1) (if npl s =? 0 then 1 else cpl s) (if npl s =? 0 then 1 else cball s), no_evs)
+Definition add_player (d : dcfg) (s : st) : st :=
+  if fp s then join_game s
   else if affordable d s then
-    let s1 := set_game s true (npl s + 1) (if npl s =? 0 then 1 else cpl s) (if npl s =? 0 then 1 else cball s) in
-    let s2 := set_audit s1 (a_coins s1) (a_earn s1) (a_paid s1 + 1) (a_svc s1) (a_evaw s1) in
-    (set_credit s2 (Z.max 0 (units s2 - d_upg d)) (tc s2), no_evs)
-  else (s, mkEvs 1 0 0 0).
+    let s2 := with_audit (join_game s) 0 0 1 0 0 in
+    set_credit s2 (Z.max 0 (units s2 - d_upg d)) (tc s2)
+  else s.
 
 Definition end_game (d : dcfg) (s : st) : st :=
   let s1 := set_game s false 0 0 0 in
   if fp s then s1 else set_flag (reset_timeouts d s1) false.      (* _game_ended only registered in credit play *)
 
-Definition apply_op (d : dcfg) (s : st) (o : op) : st * evs :=
+Definition game_full (s : st) : bool := (max_players <=? npl s) || (1 <? cball s).
+
+Definition apply_op (d : dcfg) (s : st) (o : op) : st :=
   match o with
   | Coin k =>
-      if fp s then (s, no_evs) else
+      if fp s then s else
       match nth_error (d_coin_units d) k with
-      | None => (s, no_evs)
-      | Some n =>
-          let '(s1, (mx, ad)) := add_units d s n true in
-          let s2 := set_audit s1 (a_coins s1 + 1) (a_earn s1 + nth k (d_coin_ticks d) 0) (a_paid s1) (a_svc s1) (a_evaw s1) in
-          (reset_timeouts d s2, mkEvs 0 mx ad 1)
+      | None => s
+      | Some n => reset_timeouts d (with_audit (add_units d s n true) 1 (nth k (d_coin_ticks d) 0) 0 0 0)
       end
   | Service =>
-      if fp s then (s, no_evs) else
-      let '(s1, (mx, ad)) := add_units d s (d_upg d) false in
-      (set_audit s1 (a_coins s1) (a_earn s1) (a_paid s1) (a_svc s1 + 1) (a_evaw s1), mkEvs 0 mx ad 0)
+      if fp s then s else with_audit (add_units d s (d_upg d) false) 0 0 0 1 0
   | CreditEv j =>
-      if fp s then (s, no_evs) else
+      if fp s then s else
       match nth_error (d_ev_units d) j with
-      | None => (s, no_evs)
-      | Some n =>
-          let '(s1, (mx, ad)) := add_units d s n false in
-          let s2 := set_audit s1 (a_coins s1) (a_earn s1) (a_paid s1) (a_svc s1) (a_evaw s1 + nth j (d_ev_int d) 0) in
-          (reset_timeouts d s2, mkEvs 0 mx ad 0)
+      | None => s
+      | Some n => reset_timeouts d (with_audit (add_units d s n false) 0 0 0 0 (nth j (d_ev_int d) 0))
       end
   | Start =>
       if ingame s then
-        if (max_players <=? npl s) || (1 <? cball s) then (s, no_evs) else add_player d s
+        if game_full s then s else add_player d s
       else
         if fp s then add_player d (set_game s true 0 0 0)
         else if affordable d s then
           (* mode_game_started -> _game_started: delays removed, tier counter restarts *)
           add_player d (set_timers (set_credit (set_game s true 0 0 0) (units s) 0) None None)
-        else (s, mkEvs 1 0 0 0)
+        else s
   | EndBall =>
-      if negb (ingame s) then (s, no_evs)
-      else if cpl s <? npl s then (set_game s true (npl s) (cpl s + 1) (cball s), no_evs)
+      if negb (ingame s) then s
+      else if cpl s <? npl s then set_game s true (npl s) (cpl s + 1) (cball s)
       else if cball s <? d_bpg d then
         let s1 := set_game s true (npl s) 1 (cball s + 1) in
         (* _ball_starting(player=1, ball=2) -> _reset_pricing_tier_credits *)
         if (cball s + 1 =? 2) && negb (fp s) && negb (flag s)
-        then (set_flag (set_credit s1 (units s1) 0) true, no_evs) else (s1, no_evs)
-      else (end_game d s, no_evs)
-  | EndGame => if ingame s then (end_game d s, no_evs) else (s, no_evs)
-  | Wait _ => (s, no_evs)
-  | ToggleFree => (set_fp s (negb (fp s)), no_evs)
-  | EnableFree => (set_fp s true, no_evs)
-  | EnableCredit => (set_fp s false, no_evs)
-  | ResetCredits => (clear_all s, no_evs)
-  | ResetEarnings => (set_audit s 0 0 0 0 0, no_evs)
+        then set_flag (set_credit s1 (units s1) 0) true else s1
+      else end_game d s
+  | EndGame => if ingame s then end_game d s else s
+  | Wait _ => s
+  | ToggleFree => set_fp s (negb (fp s))
+  | EnableFree => set_fp s true
+  | EnableCredit => set_fp s false
+  | ResetCredits => clear_all s
+  | ResetEarnings => set_audit s 0 0 0 0 0
+  end.
+
+(* events posted by the operation: not_enough_credits, max_credits_reached, credits_added, coin accepted *)
+Definition apply_ev (d : dcfg) (s : st) (o : op) : evs :=
+  match o with
+  | Coin k =>
+      if fp s then no_evs else
+      match nth_error (d_coin_units d) k with
+      | None => no_evs
+      | Some n => mkEvs 0 (b2z (add_over d s n true)) (b2z (add_doit d s)) 1
+      end
+  | Service =>
+      if fp s then no_evs else mkEvs 0 (b2z (add_over d s (d_upg d) false)) (b2z (add_doit d s)) 0
+  | CreditEv j =>
+      if fp s then no_evs else
+      match nth_error (d_ev_units d) j with
+      | None => no_evs
+      | Some n => mkEvs 0 (b2z (add_over d s n false)) (b2z (add_doit d s)) 0
+      end
+  | Start =>
+      if fp s then no_evs
+      else if ingame s && game_full s then no_evs
+      else if affordable d s then no_evs else mkEvs 1 0 0 0
+  | _ => no_evs
   end.
 
 Definition dur (o : op) : Z := match o with Wait ms => ms | _ => op_ms end.
 
-Definition step (d : dcfg) (s : st) (o : op) : st * evs :=
-  let '(s1, e) := apply_op d s o in (advance d s1 (now s1 + dur o), e).
+Definition step (d : dcfg) (s : st) (o : op) : st :=
+  let s1 := apply_op d s o in advance d s1 (now s1 + dur o).
 
 (* ---- observation ---------------------------------------------------------------------------- *)
 Definition observe (d : dcfg) (s : st) (e : evs) : list Z :=
@@ -268,16 +291,16 @@ Definition observe (d : dcfg) (s : st) (e : evs) : list Z :=
 Fixpoint run_from (d : dcfg) (s : st) (ops : list op) : list (list Z) :=
   match ops with
   | [] => []
-  | o :: r => let '(s1, e) := step d s o in observe d s1 e :: run_from d s1 r
+  | o :: r => let s1 := step d s o in observe d s1 (apply_ev d s o) :: run_from d s1 r
   end.
 
 Fixpoint states_from (d : dcfg) (s : st) (ops : list op) : list st :=
   match ops with
   | [] => []
-  | o :: r => let s1 := fst (step d s o) in s1 :: states_from d s1 r
+  | o :: r => let s1 := step d s o in s1 :: states_from d s1 r
   end.
 
-Definition final (d : dcfg) (s : st) (ops : list op) : st := fold_left (fun s o => fst (step d s o)) ops s.
+Definition final (d : dcfg) (s : st) (ops : list op) : st := fold_left (step d) ops s.
 
 (* correspondence entry point: first row = derived constants, then one row per operation *)
 Definition run (i : cfg * list op) : list (list Z) :=
@@ -287,5 +310,5 @@ Definition run (i : cfg * list op) : list (list Z) :=
 Definition out_eqb : list (list Z) -> list (list Z) -> bool := zss_eqb.
 
 (* ---- variant with the unpatched cap, for the refutation witness ------------------------------ *)
-Definition service_orig (d : dcfg) (s : st) : st := fst (add_units_orig d s (d_upg d) false).
-Definition coin_orig (d : dcfg) (s : st) (k : nat) : st := fst (add_units_orig d s (nth k (d_coin_units d) 0) true).
+Definition service_orig (d : dcfg) (s : st) : st := add_units_orig d s (d_upg d) false.
+Definition coin_orig (d : dcfg) (s : st) (k : nat) : st := add_units_orig d s (nth k (d_coin_units d) 0) true.
